@@ -572,7 +572,7 @@ SHRINK_FIELDS = ()
 
 
 def search(rec, ctx):
-    budget = 70000 if ctx.thorough else 9500
+    budget = 40000 if ctx.thorough else 9500
     for i, (name, rules) in enumerate(sorted(HAND_GRAMMARS.items())):
         if i % ctx.n == ctx.k:
             check_grammar(rec, rules, {"hand:" + name}, budget, "hand")
@@ -585,4 +585,4 @@ def search(rec, ctx):
             return
         check_grammar(rec, rules, g.feats, budget, "random")
 
-    drive(st.randoms(use_true_random=False), gen, ctx.budget(560, 8000), ctx.hseed("grammars"))
+    drive(st.randoms(use_true_random=False), gen, ctx.budget(560, 4000), ctx.hseed("grammars"))
